@@ -5,11 +5,46 @@ HERE = os.path.dirname(os.path.dirname(os.path.abspath(__file__)))
 
 # id -> (engine, technique, level text, level note, design ref)
 CHECKS = {
+ "C08": ("seqx+coop",
+  "explicit-state search over all fragment arrival sequences on the real reassembler vs an interval-coverage reference; stateless model checking (all schedules, cooperative scheduler) of concurrent fragment delivery",
+  "Every arrival sequence (with repetition, depth <=5 quick / <=6 thorough) of consistent 8-byte-aligned fragments of 1-2 interleaved datagrams of 1-4 units, plus advance(31 s), is replayed on a fresh real Fragmentation and compared call by call with a coverage reference (done exactly when complete + last seen, payload byte-exact, nothing delivered otherwise, old fragments not combined after the timeout). 13 concurrent programs (2-3 threads feeding fragments of 1-2 datagrams) are explored over all schedules (unbounded preemptions for 2 threads, <=3/<=5 for 3 threads).",
+  "Fragments agree on content and datagram end (contradictory fragments belong to C07). Keys are Process ids; the ipv4 hash path is exercised by the net-group checks once built. Virtual clock.",
+  "DESIGN.md §3.1, §3.3, §5 C08"),
+ "C10": ("seqx+enum+coop",
+  "explicit-state search over reserve/release histories vs a reference set; exhaustive enumeration of all 49536 ephemeral start offsets; stateless model checking of racing reservations with brute-force linearizability",
+  "All Reserve/Release histories up to depth 3 (+state-deduplicated BFS to 4; thorough 4/+6) over 3 network sets x 2 transports x {any,A,B} x 2 ports + ephemeral requests, with the complete availability table compared after every step; PickEphemeralPort for every one of the 49536 start offsets (rand shim) with nothing free (probed set must be exactly [16000,65535]), one free port at 3-8 positions, failing tester; 9 racing programs over all schedules, linearizability against the reference.",
+  "Release only of held reservations (API contract); math/rand replaced by a shim returning the enumerated offset.",
+  "DESIGN.md §5 C10"),
+ "C14": ("enum",
+  "exhaustive enumeration: all 2^32 second operands from each base point against the serial-number definition on 64-bit distances",
+  "For each base in {0, 2^31, 2^32-1} (thorough: 11 bases) and every one of the 2^32 second operands: LessThan/LessThanEq both ways, Add/Size/UpdateForward laws, InRange/InWindow for 6-8 sizes (value moving and range moving), Overlap for 9-25 window-size pairs; compared with the definition computed in 64-bit arithmetic.",
+  "Overlap domain: non-empty windows <= 2^30. The TCP half of the statement (wrap-adjacent initial sequence numbers) is exercised by the TCP checks' scenario sets.",
+  "DESIGN.md §5 C14"),
+ "C15": ("enum",
+  "exhaustive enumeration of finite input domains of the real codecs against an independent RFC bit-layout reference and RFC 1071 sum",
+  "Every value of every field <=20 bits of Ethernet/ARP/IPv4/IPv6/IPv6-fragment/ICMPv4/ICMPv6/UDP/TCP/DNS headers at all-zero and all-ones background (32-bit fields: boundary menu quick, all 2^32 thorough) encoded by the repository and compared byte-for-byte with the RFC layout and read back through the accessors; every option byte string of length <=6 over an 11-symbol alphabet and every encoder output truncated at every length through ParseSynOptions/ParseTCPOptions (no out-of-range read, options recovered); Checksum for all 2^16 initial values x all buffers of length <=2, lengths 0..65535 x 4 fills x 4 initial values (quick: 0..4200 and the top 80), even split points, complemented-sum verification; ChecksumCombine over all 2^32 pairs; partial-checksum helpers.",
+  "Field domains are the representable values. For option areas that are not well-formed only absence of out-of-range reads is demanded; an MSS option of value 0 is treated as invalid input for the SYN reader.",
+  "DESIGN.md §5 C15"),
+ "C16": ("seqx",
+  "explicit-state search: every operation sequence up to a depth on the real buffer types (then state-deduplicated BFS) vs a plain byte-string reference",
+  "All chunkings of n<=4 (thorough 6) distinct bytes into <=4 chunks incl. empty chunks; all sequences of depth <=3 (thorough 4), then deduplicated BFS to 5 (7), over TrimFront(0..n+1), CapLength(-1..n+1), RemoveFirst, Clone(nil|small|large) on the original and its clone with Size/ToView/Views/First read back after every step; View (TrimFront, CapLength with re-extension test, NextBytes, ToVectorisedView) and Prependable (Prepend(0..size+1), View, UsedLength, NewPrependableFromView) likewise.",
+  "View.TrimFront/CapLength only with counts within the current length. State key = complete structure (chunk contents, spare capacities, sizes), so deduplication merges only identical states.",
+  "DESIGN.md §5 C16"),
+ "C17": ("seqx+coop",
+  "explicit-state search over all register/unregister/notify sequences on the real waiter.Queue vs a reference map; stateless model checking (all schedules) of racing registration and notification",
+  "All enabled sequences of depth <=5 (thorough 6), then deduplicated BFS to 9 (12), over register(e,m)/unregister(e)/notify(m)/Events/IsEmpty/take-token on 3 entries (2 callback, 1 channel) x 4 masks; after each step callback counts, Events, IsEmpty, channel token and the forward/backward list walk are compared with the reference. 14 racing programs of 2-3 threads explored over all schedules (unbounded preemptions); oracle on logical call/return times: registered-throughout entries called exactly once, unregistered-throughout never, never twice per notify, no callback after unregister returned, channel token kept.",
+  "An entry is registered/unregistered by one owner at a time. RWMutex modelled without writer preference.",
+  "DESIGN.md §5 C17"),
  "C18": ("coop",
   "stateless model checking of the real code: exhaustive DFS over thread schedules at atomic-operation granularity, iterative preemption bounding",
   "Every schedule of every 2-4 thread Lock/TryLock/Unlock harness (scripts of <=2 operations per thread) of the real pkg/tmutex code is executed under a cooperative scheduler with a schedule point before each atomic operation, channel receive and select; quick explores all schedules with <=3 preemptions (<=4 for 2 threads), thorough <=4 (<=5). Oracles: at most one holder at every point, TryLock never blocks and succeeds when uncontended, no execution ends with a thread asleep (lost wake-up), the mutex is free at the end.",
   "Sequentially consistent atomics (true for Go sync/atomic); buffered-channel receive modelled as 'enabled iff non-empty'; harnesses bounded to 4 threads x 2 operations; nothing beyond the completed preemption bound is claimed.",
   "DESIGN.md §3.1, §5 C18"),
+ "C19": ("coop",
+  "stateless model checking of the real Sleeper/Waker code (DFS over schedules, preemption bounding) + brute-force linearizability of every history against a bit-per-waker reference",
+  "22 harness programs (fetcher + 1-3 asserting/clearing threads over 1-3 wakers; Done and re-attachment to a second sleeper; AddWaker of asserted wakers) explored over all schedules with <=2 preemptions (<=4 for two-thread programs; thorough <=4/<=6), a schedule point before every atomic operation of the algorithm including commitSleep, park/ready modelled by the scheduler. Oracles: no execution ends with the fetcher asleep (lost wake-up), every Assert/Clear/Fetch history linearizable against the bit-per-waker model, a sleeper's words never change after Done returned.",
+  "Portable Go commitSleep (the amd64 assembly does not assemble on the pinned toolchain). One recorded known finding F1 (non-blocking fetch vs overlapping asserts of one waker).",
+  "DESIGN.md §5 C19"),
 }
 
 NOT_BUILT_REASON = "check not built yet in this revision of /verif (planned, see DESIGN.md §5); nothing is claimed for it"
